@@ -130,8 +130,15 @@ func c18R1(p *core.Program, r *core.Report) {
 	r.Check(!early, rule, f, "nothing is rendered before the declaration was validated", f.Node().Pos(), "no Render call outside generate", "something is rendered before the struct/origin checks")
 	// the struct handed to generate is the asserted one and belongs to the generated type
 	okArg := false
-	if len(call.Args) == 3 {
-		if v := core.VarOf(info, call.Args[2]); v != nil {
+	// the struct argument: the one of type *types.Struct (third of the method; one further on when the receiver became a parameter)
+	var structArg ast.Expr
+	for _, a := range call.Args {
+		if core.NamedTypeName(info.TypeOf(a)) == "go/types.Struct" {
+			structArg = a
+		}
+	}
+	if structArg != nil {
+		if v := core.VarOf(info, structArg); v != nil {
 			if d, ok := core.SingleDef(info, f.Body, v); ok && d.Index == 0 {
 				if ta, ok := ast.Unparen(d.Rhs).(*ast.TypeAssertExpr); ok {
 					e, _ := core.Resolve(info, f.Body, ta.X)
@@ -158,9 +165,13 @@ func c18R2(p *core.Program, r *core.Report, sites []templateSite) {
 	// every index of the Omit map in generate and its literals: key must be <field var>.Name()
 	n := 0
 	// generate, its literals, and the methods of the package it hands on as callbacks (`Skip: ps.omitted`)
-	part := reachableFrom(p, gen)
+	genRaw := gen
+	if gen.Origin != nil {
+		genRaw = gen.Origin // the declaration behind a method-like view
+	}
+	part := reachableFrom(p, genRaw)
 	for _, f := range p.Funcs() {
-		if f.Root() != gen && !(part[f] && f.Pkg == gen.Pkg) {
+		if f.Root() != genRaw && !(part[f] && f.Pkg == gen.Pkg) {
 			continue
 		}
 		info := f.Info()
